@@ -42,6 +42,10 @@ func Run(c *hx.Ctx) {
 			runLS(c, genLS(c))
 		}
 	}
+	if only == "" || only == "h2ga" {
+		initEnv()
+		runH2GoAway(c)
+	}
 	if only == "" || only == "up" {
 		// boundary replayed on every run: inherited bytes that fill the new read buffer exactly (minimised past failure)
 		runUP(c, upCase{half: 64, idle: 1, wait: 0, h1: 0})
@@ -71,6 +75,15 @@ func Run(c *hx.Ctx) {
 		// connection right after the signal, while the first one is still waiting for the upstream
 		for _, p := range []string{"h2", "bolt"} {
 			runGS(c, gsCase{proto: p, stage: 8, phase: "wait", drain: 20, hold: 9, extra: true})
+		}
+		// the signal between the DATA frames of an HTTP/2 request body ("goaway between data frames"), at the real listener
+		for _, st := range []int{8, 13, 6} {
+			g := genGS(c, 12) // an h2 body-phase scenario (idle connections, drain, hold, inherit, successor generated)
+			g.proto, g.phase, g.stage, g.extra = "h2", "dfr", st, false
+			if st != 13 {
+				g.succ = false
+			}
+			runGS(c, g)
 		}
 		for i := 0; i < c.N(43, 75); i++ {
 			runGS(c, genGS(c, i))
